@@ -150,6 +150,12 @@ class ResourceManager:
             raise ResourceError("Resource {}#{} has already been requested"
                                 .format(name, number))
 
+        # A request either succeeds as a whole or leaves the manager untouched; everything it claims
+        # is collected here and committed only once every subsignal has been resolved.
+        new_phys_reqd = OrderedDict()
+        new_clocks    = []
+        new_pins      = []
+
         def merge_options(subsignal, dir, xdr):
             if isinstance(subsignal.ios[0], Subsignal):
                 orig_dir = dir
@@ -223,7 +229,7 @@ class ResourceManager:
                     ])
                     port = io.SingleEndedPort(iop, invert=phys.invert, direction=direction)
                     if resource.clock is not None:
-                        self.add_clock_constraint(iop, resource.clock.period)
+                        new_clocks.append((iop, resource.clock.period))
                 if isinstance(phys, DiffPairs):
                     phys_names_p = phys.p.map_names(self._conn_pins, resource)
                     phys_names_n = phys.n.map_names(self._conn_pins, resource)
@@ -238,15 +244,16 @@ class ResourceManager:
                     ])
                     port = io.DifferentialPort(p, n, invert=phys.invert, direction=direction)
                     if resource.clock is not None:
-                        self.add_clock_constraint(p, resource.clock.period)
+                        new_clocks.append((p, resource.clock.period))
                 for phys_name in phys_names:
-                    if phys_name in self._phys_reqd:
-                        raise ResourceError("Resource component {} uses physical pin {}, but it "
-                                            "is already used by resource component {} that was "
-                                            "requested earlier"
-                                            .format(".".join(path), phys_name,
-                                                    ".".join(self._phys_reqd[phys_name])))
-                    self._phys_reqd[phys_name] = path
+                    for phys_reqd in (self._phys_reqd, new_phys_reqd):
+                        if phys_name in phys_reqd:
+                            raise ResourceError("Resource component {} uses physical pin {}, but "
+                                                "it is already used by resource component {} that "
+                                                "was requested earlier"
+                                                .format(".".join(path), phys_name,
+                                                        ".".join(phys_reqd[phys_name])))
+                    new_phys_reqd[phys_name] = path
 
                 if dir == "-":
                     return port
@@ -257,7 +264,7 @@ class ResourceManager:
                     with _ignore_deprecated():
                         pin = wiring.flipped(io.Pin(len(phys), dir, xdr=xdr, path=path))
                     buffer = PinBuffer(pin, port)
-                    self._pins.append((pin, port, buffer))
+                    new_pins.append((pin, port, buffer))
 
                     return pin
 
@@ -268,6 +275,10 @@ class ResourceManager:
             *merge_options(resource, dir, xdr),
             path=(f"{resource.name}_{resource.number}",),
             attrs=resource.attrs)
+        self._phys_reqd.update(new_phys_reqd)
+        for clock, period in new_clocks:
+            self.add_clock_constraint(clock, period)
+        self._pins.extend(new_pins)
         self._requested[resource.name, resource.number] = value
         return value
 
